@@ -26,6 +26,8 @@ func checkC18(p *Prog, r *Report) {
 	ruleC18Round(p, a, r)
 	ruleC18Base(p, a, r)
 	ruleResourceCaps(p, a, r, "R-C18-CAP")
+	ruleC18PadMeasure(p, a, r)
+	ruleC18FloatDiv(p, a, r)
 }
 
 type unit int
@@ -482,6 +484,7 @@ func ruleResourceCaps(p *Prog, a *Anchors, r *Report, rule string) {
 						vals := varargValues(inner.Common().Args[1])
 						if len(vals) >= 1 {
 							n = vals[0]
+							needNonNeg = true // a negative width is fmt's left-justify flag and escapes the cap
 						}
 					}
 				}
@@ -498,7 +501,7 @@ func ruleResourceCaps(p *Prog, a *Anchors, r *Report, rule string) {
 				case !capped:
 					r.Bad(key, p.InstrPos(in), "%s with a count derived from a runtime number (%s) that is not compared with a cap constant on every path: a template can request gigabytes of output (or hang)", name, p.VN(n))
 				case !nonNeg:
-					r.Bad(key, p.InstrPos(in), "%s with a count that can be negative here (%s): strings.Repeat panics on a negative count", name, p.VN(n))
+					r.Bad(key, p.InstrPos(in), "%s with a count/width that can be negative here (%s): strings.Repeat panics on a negative count, a negative fmt width pads on the other side and is not covered by the upper cap", name, p.VN(n))
 				default:
 					r.OK(key, p.InstrPos(in), "count capped by %s with an error edge and non-negative at the sink", capName)
 				}
@@ -864,4 +867,159 @@ func edgeImpliesNonNeg(p *Prog, pred, blk *ssa.BasicBlock, v ssa.Value) bool {
 		return false
 	}
 	return (bo.Op == token.LSS && k >= 0 && !pol) || (bo.Op == token.GEQ && k >= 0 && pol) || (bo.Op == token.GTR && k >= -1 && pol) || (bo.Op == token.LEQ && k >= -1 && !pol)
+}
+
+// ruleC18PadMeasure: a padding filter measures the text it writes. The number of blanks added (strings.Repeat(" ", n))
+// must be computed from the character count of the very string that is emitted, not from (*Value).Len(), which is 0
+// for numbers, bools and every other non-sequence whose text is nevertheless written.
+func ruleC18PadMeasure(p *Prog, a *Anchors, r *Report) {
+	r.Begin("R-C18-PAD", "padding filters compute the number of blanks from the character count of the text they emit (not from Value.Len(), which is 0 for non-sequences)", 2)
+	names := make([]string, 0, len(a.FilterFuncs))
+	for n := range a.FilterFuncs {
+		names = append(names, n)
+	}
+	sort.Strings(names)
+	seen := map[*ssa.Function]bool{}
+	for _, fname := range names {
+		f := a.FilterFuncs[fname]
+		if seen[f] {
+			continue
+		}
+		seen[f] = true
+		for _, b := range f.Blocks {
+			for _, in := range b.Instrs {
+				c, ok := in.(*ssa.Call)
+				if !ok || c.Common().StaticCallee() == nil || p.extName(c.Common().StaticCallee()) != "strings.Repeat" {
+					continue
+				}
+				if sp, isC := constString(c.Common().Args[0]); !isC || sp != " " {
+					continue
+				}
+				// does the count derive from (*Value).Len of the input?
+				usesLen, usesRunes := false, false
+				var walk func(v ssa.Value, d int)
+				seenV := map[ssa.Value]bool{}
+				walk = func(v ssa.Value, d int) {
+					if v == nil || d > 8 || seenV[v] {
+						return
+					}
+					seenV[v] = true
+					switch x := v.(type) {
+					case *ssa.BinOp:
+						walk(x.X, d+1)
+						walk(x.Y, d+1)
+					case *ssa.Phi:
+						for _, e := range x.Edges {
+							walk(e, d+1)
+						}
+					case *ssa.Convert:
+						walk(x.X, d+1)
+					case *ssa.UnOp:
+						if sv := localLoadValue(x); sv != nil {
+							walk(sv, d+1)
+						}
+					case *ssa.Call:
+						if cal := x.Common().StaticCallee(); cal != nil {
+							switch {
+							case p.InPkg(cal) && cal.Name() == "Len" && len(f.Params) > 0 && x.Common().Args[0] == ssa.Value(f.Params[0]):
+								usesLen = true
+							case p.extName(cal) == "unicode/utf8.RuneCountInString":
+								usesRunes = true
+							case p.InPkg(cal) && (cal.Name() == "min" || cal.Name() == "max"):
+								for _, a := range x.Common().Args {
+									walk(a, d+1)
+								}
+							}
+						}
+						if b, isB := x.Common().Value.(*ssa.Builtin); isB && (b.Name() == "min" || b.Name() == "max") {
+							for _, a := range x.Common().Args {
+								walk(a, d+1)
+							}
+						}
+					}
+				}
+				walk(c.Common().Args[1], 0)
+				key := fname + ":pad-measure"
+				switch {
+				case usesLen:
+					r.Bad(key, p.InstrPos(in), "the number of blanks is computed from in.Len(), which is 0 for numbers, bools and other non-sequences, while in.String() is written: {{ 42|%s:5 }} comes out %d characters long", fname, 7)
+				case usesRunes:
+					r.OK(key, p.InstrPos(in), "blanks computed from the character count of a string")
+				default:
+					r.Trivial(key, p.InstrPos(in), "the count does not depend on the input's length")
+				}
+			}
+		}
+	}
+}
+
+// ruleC18FloatDiv: a float quotient that is converted to an integer needs a zero test of its divisor: x/0.0 is ±Inf or
+// NaN, and the conversion of those to int is an arbitrary number (printed as -9223372036854775808).
+func ruleC18FloatDiv(p *Prog, a *Anchors, r *Report) {
+	r.Begin("R-C18-FDIV", "a float division whose result is converted to an integer is reached only with a divisor that was tested against zero", 1)
+	n := 0
+	for _, f := range p.inPkgFuncsSorted(a.ExecReach()) {
+		for _, b := range f.Blocks {
+			for _, in := range b.Instrs {
+				cv, ok := in.(*ssa.Convert)
+				if !ok {
+					continue
+				}
+				tb, _ := cv.Type().Underlying().(*types.Basic)
+				fb, _ := cv.X.Type().Underlying().(*types.Basic)
+				if tb == nil || fb == nil || tb.Info()&types.IsInteger == 0 || fb.Info()&types.IsFloat == 0 {
+					continue
+				}
+				// find float quotients feeding the conversion
+				var quos []*ssa.BinOp
+				var walk func(v ssa.Value, d int)
+				walk = func(v ssa.Value, d int) {
+					if d > 6 {
+						return
+					}
+					switch x := v.(type) {
+					case *ssa.BinOp:
+						if x.Op == token.QUO {
+							if _, isC := x.Y.(*ssa.Const); !isC {
+								quos = append(quos, x)
+							}
+						}
+						walk(x.X, d+1)
+						walk(x.Y, d+1)
+					case *ssa.Call:
+						if cal := x.Common().StaticCallee(); cal != nil && cal.Pkg != nil && cal.Pkg.Pkg.Path() == "math" {
+							for _, a := range x.Common().Args {
+								walk(a, d+1)
+							}
+						}
+					case *ssa.Convert:
+						walk(x.X, d+1)
+					}
+				}
+				walk(cv.X, 0)
+				for _, q := range quos {
+					n++
+					key := p.FuncName(f) + ":int(float/…)"
+					g := Guarded(in, func(c ssa.Value, pol bool) bool {
+						bo, ok := c.(*ssa.BinOp)
+						if !ok || p.VN(bo.X) != p.VN(q.Y) {
+							return false
+						}
+						if k, isC := bo.Y.(*ssa.Const); !isC || k.Value == nil || constant.Sign(k.Value) != 0 {
+							return false
+						}
+						return (bo.Op == token.NEQ && pol) || (bo.Op == token.EQL && !pol) || (bo.Op == token.GTR && pol)
+					})
+					if g {
+						r.OK(key, p.InstrPos(in), "the divisor %s was tested against zero", p.VN(q.Y))
+					} else {
+						r.Bad(key, p.InstrPos(in), "int(…/%s) without a zero test of the divisor: for 0 the quotient is ±Inf/NaN and its conversion an arbitrary integer (the output shows -9223372036854775808)", p.VN(q.Y))
+					}
+				}
+			}
+		}
+	}
+	if n == 0 {
+		r.Bad("none", "-", "no float division converted to an integer found (widthratio has one): the rule no longer sees the code it was written for")
+	}
 }
